@@ -169,7 +169,7 @@ fn gen_list(rng: &mut Rng) -> Vec<f64> {
     }
 }
 fn gen_len(rng: &mut Rng) -> f64 {
-    *rng.pick(&[f64::NAN, f64::NAN, 1.0, 50.0, 150.0, 1000.0, 1e6, 0.0, -5.0, 0.001, 333.3333])
+    *rng.pick(&[f64::NAN, f64::NAN, 1.0, 50.0, 150.0, 1000.0, 1e6, 0.0, -5.0, 0.001, 333.3333, 0.25, 0.25000000000000006, 1e-20, 5e-324, 150.00000000000003, 50.00000000000001])
 }
 
 const FIXED_LISTS: &[&[(i64, f64, f64)]] = &[
@@ -384,8 +384,15 @@ impl Scenario for C18 {
                         let pts: Vec<String> = (0..n).map(|_| format!("{}:{}", rng.range(0, 512), rng.range(0, 384))).collect();
                         let letter = *rng.pick(&["B", "B", "L", "P", "C"]);
                         let seg2 = if rng.chance(1, 3) { format!("|{}|{}:{}|{}:{}", rng.pick(&["B", "L", "P", "C"]), rng.range(0, 512), rng.range(0, 384), rng.range(0, 512), rng.range(0, 384)) } else { String::new() };
-                        text.push_str(&format!("{},{},{t},2,0,{letter}|{}{seg2},{},{}\n", rng.range(0, 512), rng.range(0, 384), pts.join("|"), 1 + rng.below(3), *rng.pick(&["", "0", "50", "300.5", "2000"])));
+                        let (x, y) = (rng.range(0, 512), rng.range(0, 384));
+                        let path = format!("{letter}|{}{seg2}", pts.join("|"));
+                        text.push_str(&format!("{x},{y},{t},2,0,{path},{},{}\n", 1 + rng.below(3), *rng.pick(&["", "0", "50", "300.5", "2000"])));
                         t += rng.range(-200, 900);
+                        if rng.chance(1, 3) {
+                            // copy-pasted slider: same shape, another (or no) pixel length, possibly next in start-time order
+                            text.push_str(&format!("{x},{y},{t},2,0,{path},{},{}\n", 1 + rng.below(3), *rng.pick(&["", "0", "50", "75.25", "300.5", "2000", "0.0001"])));
+                            t += rng.range(0, 900);
+                        }
                     }
                 }
             }
